@@ -213,11 +213,11 @@ def run(ctx):
                 for st in trees:
                     ctx.count('tokens:' + ('full' if len(st.tree.tokens[0]) > 1 else 'bare'))
             # correspondence cases: every tree of a share of the batches
-            if bi % (4 if ctx.quick else 6) == 0:
+            if bi % (4 if ctx.quick else 8) == 0:
                 for trees, kind in zip(b, kinds * len(b)):
                     for st in trees:
                         add_tree(st.tree, lang, kind)
-            if bi % (8 if ctx.quick else 12) == 0:
+            if bi % (8 if ctx.quick else 16) == 0:
                 add_batch(b, lang)
             if all(f in nums for f in fmt_oracle.FORMATS):
                 shape = glist(b, lambda trees: glist(trees, lambda _: 'tt'))
@@ -229,7 +229,7 @@ def run(ctx):
                 ctx.sample({'lang': lang, 'shape': [len(x) for x in b], 'first_tree': repr(gen.tree_sig(b[0][0].tree))[:600],
                             'auto_extended': to_string([b[0][:1]], format='auto_extended')[:400]})
         # the malformed stream (model vs implementation only)
-        for _ in range(20 if ctx.quick else 400):
+        for _ in range(20 if ctx.quick else 250):
             t, kind = malformed_tree(rng, lang)
             add_tree(t, lang, 'malformed:' + kind, readable=(kind in ('noword', 'typekey')))
         # empty batches
